@@ -65,13 +65,13 @@ func NewExprCondition(expression string) (Condition, error) {
 		}),
 		expr.AllowUndefinedVariables(),
 	}
-	options = append(options, sqlEqualityOptions()...)
 	// 注入 StreamSQL 内置函数，使 WHERE/HAVING/OVER-WHEN 等条件可调用 to_seconds/now/abs 等
 	options = append(options, functions.GetExprBridge().RegisterStreamSQLFunctionsToExpr()...)
 
 	// options (without AsBool) are kept for the NULL-tolerant variant, whose
 	// result may be NULL (unknown) as well as true or false
-	program, err := expr.Compile(expression, append(options[:len(options):len(options)], expr.AsBool())...)
+	primary := append(options[:len(options):len(options)], sqlEqualityOptions(false)...)
+	program, err := expr.Compile(expression, append(primary, expr.AsBool())...)
 	if err != nil {
 		return nil, err
 	}
